@@ -154,7 +154,8 @@ def finish(prop, tier, seed, level, records, errors, walls, t0, *, functions, as
     """Classify results, replay failures, write evidence, print verdict lines.
     Returns the exit code."""
     known = [k for k in load_known() if k.get("property") == prop and k.get("status") == "known"]
-    normal = [r for r in records if r["kind"] not in ("canary", "vacuity")]
+    normal = [r for r in records if r["kind"] not in ("canary", "vacuity", "note")]
+    notes = [r for r in records if r["kind"] == "note"]
     canaries = [r for r in records if r["kind"] == "canary"]
     vac = [r for r in records if r["kind"] == "vacuity"]
     engine_errors = list(errors)
@@ -277,6 +278,7 @@ def finish(prop, tier, seed, level, records, errors, walls, t0, *, functions, as
         "distinct_nontrivial": len({r["name"] for r in normal if r["backend"] != "path-eval"}) or len({r["name"] for r in normal}),
         "rule": "one evaluation = one named proof obligation generated from /repo's current source; non-trivial = decided by a solver call (not by path evaluation alone); distinct = distinct obligation name",
         "known_findings": [k["id"] for (k, _r) in known_hits],
+        "not_attempted": [f"{r['name']}: {r['note']}" for r in notes],
         "engine_errors": [e["error"] for e in engine_errors][:10],
         "repo": REPO,
     }
@@ -303,6 +305,8 @@ def finish(prop, tier, seed, level, records, errors, walls, t0, *, functions, as
         for line in (e["out"] or "").splitlines()[:6]:
             print("#   " + line)
         print(f"VIOLATION property={prop} replay={e['path']}{tail}")
+    for r in notes:
+        print(f"# not attempted: {r['name']}: {r['note'][:200]}")
     print(f"{prop} [{tier}] obligations={nobl} discharged={ndis} unbounded={unb} canaries={canary_ok}/{len(canaries)} "
           f"violations={len(violations)} known={len(known_hits)} engine_errors={len(engine_errors)} wall={ev['wall_s']}s")
     if engine_errors:
